@@ -164,8 +164,9 @@ Commit ==
           \/ /\ s.kind = "iap"
              /\ c' = [c EXCEPT !.pars = @ @@ (s.name :> [k |-> "ia", fn |-> cl.fn, args |-> cl.args])]
           \/ /\ s.kind = "iav"
-             /\ c' = [c EXCEPT !.vars = Append(@, s.name),
-                               !.init = @ @@ (s.name :> [k |-> "ia", fn |-> cl.fn, args |-> cl.args])]
+             /\ \E front \in BOOLEAN :      \* declared before or after the variables with plain initial values
+                   c' = [c EXCEPT !.vars = IF front THEN <<s.name>> \o @ ELSE Append(@, s.name),
+                                  !.init = @ @@ (s.name :> [k |-> "ia", fn |-> cl.fn, args |-> cl.args])]
           \/ /\ s.kind = "sur"
              /\ \E st \in SurStMenu(s.name) :
                    c' = [c EXCEPT !.sur = @ @@ (s.name :>
